@@ -245,6 +245,31 @@ fn run_group_shares(cx: &mut CaseCx, _case: &Value) {
   cx.sample(json!({"lines": lines.len(), "example_lines": ["", "!", "AAAA", "<b64 of every prefix of a share>"]}));
 }
 
+
+/// "... panics or ABORTS": an abort (stack exhaustion, allocation failure) cannot be caught inside the process,
+/// so large inputs are fed to the decoders in child processes, on an ordinary 2 MiB thread; a child that dies by a
+/// signal is the violation, a child that reports a caught panic as well
+fn run_big_inputs(cx: &mut CaseCx, _case: &Value) {
+  let runs = match crate::probe::big_input_runs() {
+    Ok(r) => r,
+    Err(e) => {
+      cx.count("probe_processes_unavailable", 1);
+      cx.note(format!("probe processes could not be run ({}): big-input check skipped", e));
+      return;
+    }
+  };
+  for (kind, r) in runs {
+    cx.eval();
+    cx.nontrivial(fnv_str(&kind));
+    match r {
+      Ok(out) if out.starts_with("answered") => cx.count("big_inputs_survived", 1),
+      Ok(out) => cx.viol("C09/panic/big-input", format!("a decoder panicked on the large input '{}' ({})", kind, out), json!({"input": kind})),
+      Err(e) => cx.viol("C09/abort/big-input", format!("the process that fed the large input '{}' to a decoder did not exit normally: {} (an abort - stack exhaustion or allocation failure - takes the whole server down and cannot be reported through the function's failure result)", kind, e), json!({"input": kind, "termination": e})),
+    }
+  }
+  cx.outcome("big inputs");
+}
+
 pub fn undecodable_points() -> Vec<[u8; 32]> {
   let mut v: Vec<[u8; 32]> = vec![[0xff; 32]];
   let mut neg = [0u8; 32];
@@ -674,6 +699,13 @@ pub fn spec() -> PropSpec {
         gen: |tier| (0..15u64).map(|f| json!({"first": f, "depth": if tier.thorough() { 5 } else { 4 }})).collect(),
         run: run_server_histories,
         min_counts: &[("histories", 10_000)],
+      },
+      Check {
+        name: "big-inputs",
+        rule: "aborts are observed from OUTSIDE: nine child processes each feed one large input to the decoders on an ordinary 2 MiB thread - a valid report / share / adss share followed by 8 MiB of zero bytes (two million empty chunks), 200000 nested chunks, 20000 share lines and one 16 MiB line through group_shares, JSON nested 300000 deep, a public key claiming 2^40 entries - and must exit normally whatever the decoder answers",
+        gen: |_| vec![json!({})],
+        run: run_big_inputs,
+        min_counts: &[("big_inputs_survived", 9)],
       },
       Check {
         name: "Client::verify",
